@@ -347,12 +347,30 @@ def run_property(prop, tier='quick', jobs=None, seed=0, only=None, write_baselin
             tasks.append((gname, cfg, tier, {'want_shim': n == 0, 'l0': bool(g.l0 or os.environ.get('VERIF_L0') == 'contract')}))
     ctxm = mp.get_context('fork')
     results = []
+    # thorough tier: wall-clock budget per phase (VERIF_THOROUGH_BUDGET_S, 0 = none). What the budget leaves unexplored is
+    # counted in the evidence ('thorough_budget') and printed; the verdict covers what was explored. The quick tier has no budget.
+    budget_s = float(os.environ.get('VERIF_THOROUGH_BUDGET_S', '1200')) if tier == 'thorough' else 0.0
+    budget_info = {'budget_s_per_phase': budget_s, 'symbolic_configs_not_explored': 0, 'native_jobs_not_run': 0}
+    t_sym = time.time()
     for level in (False, True):     # real kernels / contract level of the kernels: separate worker pools
         sub = [t for t in tasks if t[3]['l0'] == level]
         if sub:
+            if budget_s:       # thorough tier under a wall-clock budget: the explored subset is spread over the whole enumeration
+                import random as _random
+                _random.Random(1234567 + int(seed or 0)).shuffle(sub)
             with ctxm.Pool(min(jobs, len(sub))) as pool:
-                for r in pool.imap_unordered(sym_task, sub, chunksize=1):
-                    results.append(r)
+                it = pool.imap_unordered(sym_task, sub, chunksize=1)
+                done = 0
+                while True:
+                    try:
+                        if budget_s and time.time() > t_sym + budget_s: raise mp.TimeoutError()
+                        r = it.next(timeout=max(1.0, t_sym + budget_s - time.time())) if budget_s else next(it)
+                    except StopIteration:
+                        break
+                    except mp.TimeoutError:
+                        budget_info['symbolic_configs_not_explored'] += len(sub) - done
+                        pool.terminate(); break
+                    results.append(r); done += 1
     # second chance for configurations that ended undecided (solver timeouts are wall-clock: on a loaded machine a query that
     # normally takes seconds may run out of its budget): re-run them, a few at a time, with four times the budget
     retry = [i for i, r in enumerate(results) if not r['error'] and (r['undecided'] or any(v != 'refuted' for v in r['canaries'].values()))]
@@ -404,8 +422,29 @@ def run_property(prop, tier='quick', jobs=None, seed=0, only=None, write_baselin
                 native_jobs.append(('sample', ri, k, (r['group'], r['cfg'], {'__sample__': k}, {}, [])))
     native_out = []
     if native_jobs:
+        if budget_s:      # replays of counter-models always first; the rest in a seeded shuffle
+            import random as _random
+            rest_jobs = [j for j in native_jobs if j[0] != 'replay']
+            _random.Random(7654321 + int(seed or 0)).shuffle(rest_jobs)
+            native_jobs = [j for j in native_jobs if j[0] == 'replay'] + rest_jobs
+        t_native = time.time()
         with ctxm.Pool(min(jobs, len(native_jobs))) as pool:
-            native_out = pool.map(native_task, [j[3] for j in native_jobs], chunksize=4)
+            it = pool.imap(native_task, [j[3] for j in native_jobs], chunksize=1 if budget_s else 4)     # only chunksize 1 gives an iterator with next(timeout)
+            while True:
+                try:
+                    if budget_s and time.time() > t_native + budget_s: raise mp.TimeoutError()
+                    res_ = it.next(timeout=max(1.0, t_native + budget_s - time.time())) if budget_s else next(it)
+                except StopIteration:
+                    break
+                except mp.TimeoutError:
+                    budget_info['native_jobs_not_run'] = len(native_jobs) - len(native_out)
+                    pool.terminate(); break
+                native_out.append(res_)
+        if len(native_out) < len(native_jobs):
+            native_jobs = native_jobs[:len(native_out)]
+    if budget_info['symbolic_configs_not_explored'] or budget_info['native_jobs_not_run']:
+        print(f"BUDGET {prop} [thorough]: {budget_info['symbolic_configs_not_explored']} symbolic configurations and "
+              f"{budget_info['native_jobs_not_run']} native runs not explored within {budget_s:.0f} s per phase (VERIF_THOROUGH_BUDGET_S); the verdict covers what was explored")
 
     violations = []      # dicts
     known_hits = {}
@@ -597,11 +636,12 @@ def run_property(prop, tier='quick', jobs=None, seed=0, only=None, write_baselin
                                    'no_answer_in_budget': sum(r['stats'].get('second_no_answer', 0) for r in results),
                                    'disagreed': sum(r['stats'].get('second_disagreed', 0) for r in results),
                                    'solver_time_s': round(sum(r['stats'].get('second_s', 0) for r in results), 2)},
+        'thorough_budget': budget_info,
         'cross_models_reconditioned': sum(r['stats'].get('cross_models_reconditioned', 0) for r in results),
         'cross_models_ill_conditioned': sum(r['stats'].get('cross_models_ill_conditioned', 0) for r in results),
         'canaries': canary_total, 'canaries_refuted': canary_refuted,
         'known_finding_obligations': len(known_obs),
-        'bounded': [{'group': gname, 'functions': g.functions, 'inputs': sum(1 for b in b_results if b['group'] == gname),
+        'bounded': [{'group': gname, 'functions': g.functions, 'inputs': sum(1 for b in b_results if b['group'] == gname and 'res' in b),
                      'rule': g.notes} for gname, g in groups.items() if g.mode == 'B'],
         'bounded_evaluations': bounded_evals, 'bounded_clause_evaluations': bounded_clauses,
         # mode B: a canary (deliberately wrong clause) counts as refuted when it is false in at least one configuration of its group
